@@ -152,6 +152,9 @@ def second_solver(eng, extra, z3_verdict, timeout_s=10):
     return verdict
 
 
+WITNESS_BOUND = 10**6
+
+
 def _candidates(v):
     """Nearby exactly-representable values for a model value v (Fraction)."""
     out = []
@@ -185,15 +188,25 @@ def find_witnesses(ctx, extra, k=1):
             eng.s.set("timeout", 5000)
             for c in list(extra) + blocked:
                 eng.s.add(c)
+            # constants of moderate size first: at 1e16 float arithmetic absorbs everything else, which is outside
+            # any meaningful reading of the properties (replays of passing paths are only made with bounded witnesses)
+            bound = [z3.And(z >= -WITNESS_BOUND, z <= WITNESS_BOUND) for z in ctx.consts.values()]
             level = "basic" if eng.lp_basic_facts else "free"
             eng.s.push()
-            for c in eng.lp_basic_facts:
+            for c in list(eng.lp_basic_facts) + bound:
                 eng.s.add(c)
             r = str(eng.check())
             if r != "sat":
                 eng.s.pop()
                 eng.s.push()
+                for c in bound:
+                    eng.s.add(c)
                 level = "lp-choice-dependent"
+                r = str(eng.check())
+            if r != "sat":
+                eng.s.pop()
+                eng.s.push()
+                level = "unbounded-constants"
                 r = str(eng.check())
             if r == "sat":
                 m = eng.s.model()
@@ -650,7 +663,7 @@ def run_check(prop, tier, seed=None):
                     for wi, w in enumerate(o.get("witnesses", [])):
                         replay_items.append({"prop": prop, "job": r["job"], "witness": {"consts": w["consts"]}})
                         meta.append(("fail", ri, pi, oi, wi))
-            if "witness" in p and all(o["status"] == "ok" for o in p["obligations"]):
+            if "witness" in p and all(o["status"] == "ok" for o in p["obligations"]) and not str(p["witness"].get("level", "")).startswith("unbounded"):
                 pass_candidates.append((ri, pi))
     # at least one passing path per job, then a seeded sample
     chosen = {}
